@@ -51,12 +51,19 @@ func c28Gen(r *rand.Rand, n int, tier string, emit func(input ...string)) {
 	emit("EBMID")
 	emit("SNAPMID")
 	emit("POOLMID")
+	emit("POOLRD")
 	for i := 0; i < n; i++ {
 		comp := c28Components[i%len(c28Components)]
 		seed := fmt.Sprint(r.Int63n(1 << 40))
 		if r.Intn(5) < 3 {
 			threads := 2 + r.Intn(3)
-			ops := 2 + r.Intn(20/threads-1)
+			if r.Intn(4) == 0 {
+				threads = 5 + r.Intn(4) // up to 8 goroutines with 2 operations each
+			}
+			ops := 2
+			if 20/threads > 2 {
+				ops = 2 + r.Intn(20/threads-1)
+			}
 			emit("LIN", comp, seed, fmt.Sprint(threads), fmt.Sprint(ops))
 		} else {
 			threads := 2 + r.Intn(7)
@@ -331,6 +338,27 @@ func c28Run(in []string) []string {
 	for _, t := range out {
 		if t == "lin=0" {
 			vu.Stat("nonlinearizable")
+		}
+		if strings.HasPrefix(t, "cfg=") { // the configuration variant the child derived from the seed
+			vu.Stat("cfg_" + comp + "_" + t[4:])
+		}
+		if strings.HasSuffix(t, ":panic") {
+			vu.Stat("op_panicked_after_close")
+		}
+		for _, k := range []string{"MidFlush", "Close", "AcquireZ", "AcquireH", "AcquireB", "POpen", "PInit", "Clear", "Terminate", "Purge", "SRelease"} {
+			if strings.Contains(t, ":"+k) && strings.HasPrefix(t, "i") {
+				vu.Stat("op_" + k)
+			}
+		}
+	}
+	if len(in) >= 4 && (in[0] == "LIN" || in[0] == "STRESS") {
+		vu.Stat("threads_" + in[3])
+		var sd int64
+		fmt.Sscan(in[2], &sd)
+		if sd%8 == 0 {
+			vu.Stat("gomaxprocs_1")
+		} else {
+			vu.Stat("gomaxprocs_many")
 		}
 	}
 	return append(obs, out...)
